@@ -519,6 +519,23 @@ func cmdLock(args []string) {
 	}
 	scratch := scratchDir()
 	defer os.RemoveAll(scratch)
+	// hints of properties not being re-locked are kept
+	newHints := map[string]string{}
+	relock := map[string]bool{}
+	for _, id := range ids {
+		for _, k := range props[id].Functions {
+			relock[k] = true
+		}
+	}
+	for n, h := range solverHints {
+		fn := n
+		if i := strings.Index(n, "/"); i >= 0 {
+			fn = n[:i]
+		}
+		if !relock[fn] {
+			newHints[n] = h
+		}
+	}
 	for _, id := range ids {
 		okCount := map[string]int{}
 		var order []string
@@ -529,6 +546,20 @@ func cmdLock(args []string) {
 				all = append(all, res.Obligations...)
 			}
 			dischargeAll(all, scratch, 20*time.Second)
+			// second chance, with far fewer solver processes competing for the cores: obligations that were not
+			// discharged under the threshold in the crowded first pass are tried once more on their own
+			var again []*Obligation
+			for _, o := range all {
+				if !o.Vacuity && o.Backend != "syntactic" && !(o.ok() && o.Ms < 6500) {
+					again = append(again, o)
+				}
+			}
+			if len(again) > 0 && len(again) < len(all) {
+				for _, o := range again {
+					o.Status, o.Backend, o.Ms, o.Model = "", "", 0, ""
+				}
+				dischargeAll(again, scratch, 20*time.Second)
+			}
 			for _, o := range all {
 				if o.Vacuity {
 					continue
@@ -539,6 +570,9 @@ func cmdLock(args []string) {
 				// only lock obligations that discharge well under the quick timeout
 				if o.ok() && o.Ms < 6500 {
 					okCount[o.Name]++
+				}
+				if o.ok() && o.Backend != "syntactic" && o.Backend != solvers[0].Name && o.Ms > 2000 {
+					newHints[o.Name] = o.Backend
 				}
 			}
 		}
@@ -560,6 +594,8 @@ func cmdLock(args []string) {
 	}
 	b, _ := json.MarshalIndent(lock, "", " ")
 	os.WriteFile(filepath.Join(*vdir, "obligations.lock.json"), b, 0o644)
+	hb, _ := json.MarshalIndent(newHints, "", " ")
+	os.WriteFile(filepath.Join(*vdir, "solver_hints.json"), hb, 0o644)
 	writeLocals(g, *vdir)
 }
 
